@@ -208,7 +208,7 @@ def work(chunk, points=None, tier='quick'):
             nontriv = E * allow_unit < abs(exact) / 2
             acc.case(case, nontrivial=nontriv, cell=[cell, 'outer/' + str(P.outer_op(spec[1] if spec[0] == 'real' else spec[2])),
                                                      'kind/' + spec[0]],
-                     outcome=(method, n, round(math.log10(ratio + 1e-300))))
+                     outcome=(method, n, round(math.log10(min(ratio, 1e300) + 1e-300))))
             acc.maxi('worst_ratio/%s/%d' % (method, n), ratio if math.isfinite(ratio) else 1e300)
             if not (err <= E * allow_unit):
                 kind = 'nonfinite' if not math.isfinite(err) else 'envelope'
